@@ -423,6 +423,24 @@ def run(ck):
                 if ck.mine(n):
                     P.one('sealed.truncated_plaintext', seal(hdr, t, inner_first, keys, rng), crypto=crypto,
                           desc={'inner': t, 'inner_first': inner_first, 'keys': keys})
+            # a payload of every known kind in the clear in FRONT of an authentic SK payload (legal syntax; the library compares, copies and removes payload objects
+            # when it separates SK from the rest: every kind of object must survive that)
+            fronts = [{'type': 39, 'critical': False, 'method': 2, 'data': b'a' * 20}, {'type': 35, 'critical': False, 'idtype': 2, 'data': b'front'},
+                      {'type': 36, 'critical': False, 'idtype': 1, 'data': b'\x01\x02\x03\x04'}, {'type': 34, 'critical': False, 'group': 19, 'data': b'k' * 64},
+                      {'type': 40, 'critical': False, 'data': b'n' * 32}, {'type': 43, 'critical': False, 'data': b'vendor'},
+                      {'type': 42, 'critical': False, 'proto': 3, 'spis': [b'\x01\x02\x03\x04']}, {'type': 41, 'critical': False, 'proto': 0, 'spi': b'', 'ntype': 16388, 'data': b''},
+                      {'type': 44, 'critical': False, 'selectors': [gen.gen_selector(rng, False)]}, {'type': 45, 'critical': False, 'selectors': [gen.gen_selector(rng, True)]},
+                      {'type': 33, 'critical': False, 'proposals': [gen.gen_proposal(rng, 1)]}]
+            for fi_, fr_ in enumerate(fronts):
+                n += 1
+                if ck.mine(n):
+                    try:
+                        d_ = ikecrypto.sk_seal_clear_first({k_: hdr[k_] for k_ in ('spi_i', 'spi_r', 'major', 'minor', 'exch', 'flags', 'mid')}, [fr_] + ([fronts[(fi_ + 3) % len(fronts)]] if fi_ % 2 else []),
+                                                           m['payloads'], keys[0], keys[1], keys[2], gen.rb(rng, 16))
+                    except Exception:
+                        continue
+                    ck.count('sealed.known_payload_in_front_of_sk')
+                    P.one(f"sealed.clear-payload-in-front.type{fr_['type']}", d_, crypto=crypto, desc={'inner': inner_raw, 'inner_first': inner_first, 'keys': keys})
             # padding / block-length pathologies, all with a VALID checksum
             integ_id, sk_a, sk_e = keys
             icvn = ikecrypto.INTEG[integ_id][2]
@@ -481,6 +499,7 @@ def verdict(ck):
     ck.floor('distinct long proposals parsed by one process', c['longlived.parsed'], 1500)
     ck.floor('well-formed messages in legal but unusual shapes', c['unusual.messages'], 1200)
     ck.floor('inputs with text hostile to pattern matching', c['hostile_text.inputs'], 500)
+    ck.floor('authentic messages with a payload of a known kind in the clear in front of SK', c['sealed.known_payload_in_front_of_sk'], 60)
     ck.floor('integrity algorithms (checksum lengths 12, 16, 32) under which the protected-message grid ran', len(ck.sets['sealed.integrity_algorithms']), 3)
     ck.floor('extreme shapes timed at 16 KB and 64 KB without the line monitor', c['growth.shapes_timed'], 15)
     ck.floor('kind x length pairs inside substructures (selector, proposal, transform, attribute)', c['grid.substructure_pairs'], 2000)
